@@ -6,7 +6,7 @@ CFG = dict(
                "the binary search-path construction never slices out of bounds; config.set/configure/applyURL return an error exactly for "
                "texts that are not values of the field's kind and never panic; strings.Fields tokens are non-empty and parseCommandLine "
                "never panics on them; one pass and any sequence of passes of the interactive loop never panics for a profile with >= 1 "
-               "sample type, keeps the configuration's shape and still answers 'top 3'; the -symbolize mode parser only ever hands demanglerModeToOptions a mode it knows (its panic is unreachable). Table facts (field kinds, distinct names, fields "
+               "sample type, keeps the configuration's shape and still answers 'top 3'; every graph.TrimTree call is guarded by output formats for which the graph is built as a call tree (both format sets re-read from the source each run), so its panic is unreachable; the -symbolize mode parser only ever hands demanglerModeToOptions a mode it knows (its panic is unreachable). Table facts (field kinds, distinct names, fields "
                "addressed directly) are re-proved on the tables regenerated from /repo each run. The model is tied to the code by ~4,000 "
                "differential cases per quick run (identical event streams and configurations). Everything else -- report generation, "
                "templates, web handlers, symbolization, fetch -- is EXPLORED, not proved: grammar-driven sessions with real reports, "
@@ -14,17 +14,18 @@ CFG = dict(
     level_note="Crash-freedom of code outside the modelled cores (internal/report, graph, symbolizer, html/template, Go runtime) cannot be "
                "excluded by these theorems; the internal consistency panics (AddToEdgeDiv, TrimTree, synth address, demangler mode) are "
                "left to exploration. Lines or sample types with bytes >= 0x80 are not compared with the model (Unicode white space), only judged by the spec.",
-    translators=[("gen-unittable", "Gen/Gen_UnitTable.v"), ("gen-c09tables", "Gen/Gen_C09Tables.v")],
+    translators=[("gen-unittable", "Gen/Gen_UnitTable.v"), ("gen-c09tables", "Gen/Gen_C09Tables.v"), ("gen-c09calltree", "Gen/Gen_C09CallTree.v")],
     rule="inputs: (1) tag-filter texts from a pool + grammar (sign, digits up to 41 places, unit suffix, ':' shapes, noise); (2) mappings "
          "(file, build id incl. 1/2/3-char, '..', glob metacharacters) for locateBinaries; (3) configure(name, value): every field/choice "
          "name x pools of bools/ints/floats/regexps/units/ranges; (4) URL query strings (escaped/unescaped/valueless, ';'); (5) interactive "
          "sessions of 1-4 lines from the command grammar (commands, topN, '>' redirection, -ignore, assignments, shortcuts, comments, noise) "
          "+ a closing 'top 3', report requests recorded; (6) the same with real report generation over profiles with odd strings/ids/"
          "addresses/build ids/labels/units; (7) web: 1-5 requests over all handler paths + closing /top via driver.PProf -http and a plugin "
-         "HTTPServer; (8) command lines; (9) -symbolize mode texts from a grammar through Symbolizer.Symbolize (model-compared) and through driver.PProf with the real symbolizer; (10) every report under mean on profiles whose first value column holds zeros (session, CLI, web). All streams run in child processes under watchdogs (a call that does not return = observable hang). distinct = sha256 of the input term; non-trivial = at least one generated line/request/digit/"
+         "HTTPServer; (8) command lines; (9) -symbolize mode texts from a grammar through Symbolizer.Symbolize (model-compared) and through driver.PProf with the real symbolizer; (10) every report under mean on profiles whose first value column holds zeros (session, CLI, web). (11) option x output-format matrix: six shaped profiles (two-caller diamond, recursion/inlining/labels, wide, negative values, deep chain, unsymbolized) x settings derived from the config field table alone and combined with call_tree/trim/nodecount/nodefraction x EVERY report command, as interactive sessions (all commands in one session), command lines and web requests. All streams run in child processes under watchdogs (a call that does not return = observable hang). distinct = sha256 of the input term; non-trivial = at least one generated line/request/digit/"
          "mapping/non-empty value/flag",
     spec_what="pprof panicked, hung, answered with an unexpected HTTP status, or left the interactive/web session unusable",
-    trusted_base=["translators gen-c09tables (dumps configFields/pprofCommands/configHelp via reflection-free export shim) and gen-unittable",
+    trusted_base=["translator gen-c09calltree (go/parser scan of the TrimTree call guards and the graph.Options CallTree field; fails closed); assumption: a graph built with CallTree has at most one in-edge per node",
+                  "translators gen-c09tables (dumps configFields/pprofCommands/configHelp via reflection-free export shim) and gen-unittable",
                   "export shim harness/overlay/internal/driver/zz_verif_c09.go (add-only; swaps generateReportWrapper, a test hook of the package)",
                   "oracles shipped in cases: strconv.ParseFloat results, net/url query parsing; regexp, filepath.Join/Base/Dir/Glob not modelled",
                   "scripted plugin.UI / FlagSet (Go flag package) / Fetcher / ObjTool / Writer / HTTPServer; PATH emptied so no external program starts",
